@@ -3,8 +3,7 @@
 //
 // (a) lines: items are generated and PRINTED with random whitespace placements, plus a raw byte
 // stream and a malformed stream; every line goes through the real file.ParseLine, and whole texts
-// (LF / CRLF line ends, empty lines, an unterminated last line, lines around the 64 KiB limit of
-// bufio.Scanner) through the real LoadFile / ParseByLine + Check; the projected result (kind, message, delay, pattern source, count,
+// (LF / CRLF line ends, empty lines, an unterminated last line, lines of 65534 bytes up to several MiB) through the real LoadFile / ParseByLine + Check; the projected result (kind, message, delay, pattern source, count,
 // timeout - never an error text) is emitted as a Coq case together with the oracle tables recorded
 // from time.ParseDuration / regexp.Compile / strconv.Atoi for the operands of that line.
 // (b) filter: random accept/deny/reset sequences interleaved with lines through the real
@@ -97,6 +96,9 @@ type Case struct {
 	NErr    int     `json:"nerr,omitempty"`
 	Failed  bool    `json:"failed,omitempty"`
 	TooLong bool    `json:"too_long,omitempty"`
+	// a text with lines of several MiB is judged by the Go oracle alone in the quick tier (its Coq
+	// evaluation costs 10-20 s); the thorough tier evaluates it on the model too
+	OracleOnly bool `json:"oracle_only,omitempty"`
 	Out    []string `json:"out,omitempty"`
 	// oracle tables recorded from the real libraries
 	Durs  map[string]*int64   `json:"durs,omitempty"`
@@ -274,9 +276,7 @@ func runText(c *Case) (errs []string, note string) {
 	text := textOf(c.Text)
 	c.record("")
 	for _, l := range physLines(text) {
-		if len(l) < 66000 {
-			c.record(dropCR(l))
-		}
+		c.record(dropCR(l))
 	}
 	dir := os.Getenv("VERIF_WORK")
 	if dir == "" {
@@ -307,6 +307,8 @@ func runText(c *Case) (errs []string, note string) {
 	if lerr != nil && !errors.Is(lerr, bufio.ErrTooLong) {
 		note += fmt.Sprintf(" LoadFile failed with %v", lerr)
 	}
+	// a reported error text repeats its line: keep only what the oracle needs of a very long one
+
 	var cerr error
 	errs, cerr = file.Check(got)
 	c.NErr = len(errs)
@@ -648,6 +650,9 @@ func (c *Case) coq() string {
 		d, r, n := c.tables()
 		return lib.App("CParse", d, r, n, lib.Str(c.Line), c.Obs.coq())
 	case "text":
+		if c.OracleOnly {
+			return "(CText [] [] [] [] [] 0%N false false)"
+		}
 		d, r, n := c.tables()
 		its := make([]string, len(c.ObsL))
 		for i, it := range c.ObsL {
@@ -730,7 +735,17 @@ func main() {
 			cases = append(cases, Case{Kind: "parse", Stream: "malformed", Line: genMalformed(rng.Fork())})
 		}
 		for _, t := range textCorpus() {
-			cases = append(cases, Case{Kind: "text", Stream: "text", Text: t})
+			heavy := false
+			if a.Tier != "thorough" {
+				big := 0
+				for _, ch := range t {
+					if ch.Rep >= 1<<20 {
+						big += ch.Rep
+					}
+				}
+				heavy = big > 1<<20+64
+			}
+			cases = append(cases, Case{Kind: "text", Stream: "text", Text: t, OracleOnly: heavy})
 		}
 		nFiles := a.Pick(60, 600)
 		for i := 0; i < nFiles; i++ {
@@ -739,6 +754,31 @@ func main() {
 		nFilt := a.Pick(200, 3000)
 		for i := 0; i < nFilt; i++ {
 			cases = append(cases, Case{Kind: "filter", Stream: "filter", Evs: genFilter(rng.Fork())})
+		}
+	}
+
+	// spread the file texts evenly over the list (and so over the Coq shards): they are the
+	// expensive cases to evaluate
+	if a.Replay == "" {
+		var texts, others []Case
+		for _, c := range cases {
+			if c.Kind == "text" {
+				texts = append(texts, c)
+			} else {
+				others = append(others, c)
+			}
+		}
+		if len(texts) > 0 {
+			every := len(others)/len(texts) + 1
+			cases = cases[:0]
+			for i, c := range others {
+				if i%every == 0 && len(texts) > 0 {
+					cases = append(cases, texts[0])
+					texts = texts[1:]
+				}
+				cases = append(cases, c)
+			}
+			cases = append(cases, texts...)
 		}
 	}
 
